@@ -7,6 +7,7 @@ import (
 	_ "verif/harness/c03"
 	_ "verif/harness/c06"
 	_ "verif/harness/c07"
+	_ "verif/harness/c08"
 	_ "verif/harness/c09"
 	_ "verif/harness/c12"
 	_ "verif/harness/c13"
